@@ -1391,7 +1391,21 @@ func (f *frame) invoke(cc *ssa.CallCommon, res ssa.Value, pos token.Pos) (*Val, 
 	if err != nil {
 		return nil, err
 	}
-	// devirtualise when the dynamic type is syntactically known
+	// devirtualise when the dynamic type is syntactically known (possibly through a named definition:
+	// an interface value captured by a nested closure travels as a defined constant)
+	if recv.T != nil && !strings.HasPrefix(recv.T.Op, "box.") && f.c != nil {
+		r := recv.T
+		for i := 0; i < 6 && r.Op == "" && r.Name != ""; i++ {
+			d, ok := f.c.defined[r.Name]
+			if !ok {
+				break
+			}
+			r = d
+		}
+		if strings.HasPrefix(r.Op, "box.") {
+			recv = &Val{T: r, Typ: recv.Typ}
+		}
+	}
 	if recv.T != nil && strings.HasPrefix(recv.T.Op, "box.") {
 		for _, t := range f.e.Sorts.ifaceTagTypes {
 			if boxName(t) == recv.T.Op {
